@@ -25,8 +25,10 @@ type Connection interface {
 	RemoteAddr() net.Addr
 }
 
+// Store registers the connection. Connections are kept by their identity: two live connections
+// may have the same remote address (they differ in the local one).
 func (c *Connections) Store(conn Connection) {
-	c.data.Store(conn.RemoteAddr().String(), conn)
+	c.data.Store(conn, conn)
 }
 
 func (c *Connections) length() int {
@@ -69,5 +71,5 @@ func (c *Connections) Close() {
 }
 
 func (c *Connections) Delete(conn Connection) {
-	c.data.Delete(conn.RemoteAddr().String())
+	c.data.Delete(conn)
 }
